@@ -163,3 +163,433 @@ Proof.
     split_chr; simpl; split; intro Hx; try discriminate; try reflexivity;
     try (eexists; reflexivity).
 Qed.
+
+(* ---- -r([A-Z]{2}) under sub --------------------------------------------------------------------- *)
+Lemma region_fail_end : forall z k, suf z = [] -> m rx_android_region z k = Fail.
+Proof. intros z k H. unfold rx_android_region. simpl. rewrite H. reflexivity. Qed.
+
+Lemma region_fail_nodash : forall z c t k, suf z = c :: t -> Dc c = false ->
+  m rx_android_region z k = Fail.
+Proof.
+  intros z c t k H Hd. unfold rx_android_region. simpl. rewrite H. unfold Dc in Hd. rewrite Hd.
+  reflexivity.
+Qed.
+
+Lemma region_hit : forall pre0 pos0 caps0 u1 u2 t (K : st -> out),
+  Uc u1 = true -> Uc u2 = true ->
+  m rx_android_region (mkst pre0 (45 :: 114 :: u1 :: u2 :: t)%N pos0 caps0) K =
+  K (mkst (u2 :: u1 :: 114 :: 45 :: pre0)%N t (S (S (S (S pos0))))
+          ((1, (S (S pos0), S (S (S (S pos0))))) :: caps0)).
+Proof.
+  intros pre0 pos0 caps0 u1 u2 t K H1 H2. unfold rx_android_region, Uc in *. simpl.
+  rewrite H1, H2. reflexivity.
+Qed.
+
+Lemma fwd_app : forall p z rest, suf z = p ++ rest ->
+  suf (fwd (length p) z) = rest /\ pos (fwd (length p) z) = pos z + length p /\
+  pre (fwd (length p) z) = rev p ++ pre z /\ caps (fwd (length p) z) = caps z.
+Proof.
+  induction p as [|c p IH]; intros z rest H; simpl in *.
+  - repeat split; auto.
+  - rewrite H. destruct (IH (advance z c (p ++ rest)) rest eq_refl) as [H1 [H2 [H3 H4]]].
+    rewrite H1, H2, H3, H4. simpl. split; [auto|]. split; [lia|]. split; [|auto].
+    rewrite <- app_assoc. reflexivity.
+Qed.
+
+Lemma search_skip : forall p z rest f ne, suf z = p ++ rest ->
+  Forall (fun c => Dc c = false) p ->
+  search_from rx_android_region (length p + f) z ne =
+  search_from rx_android_region f (fwd (length p) z) ne.
+Proof.
+  induction p as [|c p IH]; intros z rest f ne H HF; [reflexivity|].
+  inversion HF as [|? ? Hc HF']; subst.
+  change (length (c :: p) + f) with (S (length p + f)).
+  rewrite search_from_S. unfold run_at.
+  change ((c :: p) ++ rest) with (c :: (p ++ rest)) in H.
+  rewrite (region_fail_nodash z c (p ++ rest)) by auto. rewrite H.
+  rewrite (IH (advance z c (p ++ rest)) rest) by auto.
+  change (fwd (length (c :: p)) z) with
+    (match suf z with c' :: t => fwd (length p) (advance z c' t) | [] => z end).
+  rewrite H. reflexivity.
+Qed.
+
+Lemma region_finditer_none : forall s, Forall (fun c => Dc c = false) s ->
+  rfinditer rx_android_region s = Some [].
+Proof.
+  intros s HF. unfold rfinditer. replace (2 * length s + 2) with (S (S (2 * length s))) by lia.
+  rewrite finditer_from_S.
+  assert (Hs : suf (st_at s 0) = s ++ []) by (simpl; rewrite app_nil_r; reflexivity).
+  replace (S (length (suf (st_at s 0)))) with (length s + 1) by (simpl; lia).
+  rewrite (search_skip s _ [] 1 None Hs HF).
+  destruct (fwd_app s (st_at s 0) [] Hs) as [H1 _].
+  rewrite search_from_S. unfold run_at. rewrite region_fail_end by auto. rewrite H1. reflexivity.
+Qed.
+
+Lemma region_finditer_one : forall p u1 u2, Forall (fun c => Dc c = false) p ->
+  Uc u1 = true -> Uc u2 = true ->
+  rfinditer rx_android_region (p ++ [45; 114; u1; u2])%N =
+  Some [mkres (length p) (S (S (S (S (length p)))))
+              [(1, (S (S (length p)), S (S (S (S (length p))))))]].
+Proof.
+  intros p u1 u2 HF H1 H2. set (s := (p ++ [45; 114; u1; u2])%N).
+  assert (Hlen : length s = length p + 4) by (unfold s; rewrite app_length; reflexivity).
+  unfold rfinditer. replace (2 * length s + 2) with (S (S (2 * length s))) by lia.
+  rewrite finditer_from_S.
+  assert (Hs : suf (st_at s 0) = p ++ [45; 114; u1; u2]%N) by reflexivity.
+  replace (S (length (suf (st_at s 0)))) with (length p + 5) by (simpl; lia).
+  rewrite (search_skip p _ _ 5 None Hs HF).
+  destruct (fwd_app p (st_at s 0) _ Hs) as [F1 [F2 [F3 F4]]].
+  remember (fwd (length p) (st_at s 0)) as z1.
+  destruct z1 as [pre1 suf1 pos1 caps1]. simpl in F1, F2, F3, F4. subst suf1 pos1 caps1.
+  rewrite search_from_S. unfold run_at. rewrite region_hit by auto.
+  cbv beta iota. cbn [pos caps m_end m_start m_caps pre suf].
+  assert (Hne : Nat.eqb (length p) (S (S (S (S (length p))))) = false) by (apply Nat.eqb_neq; lia).
+  rewrite Hne.
+  change (pos (st_at s 0)) with 0. change (pre (st_at s 0)) with (@nil N).
+  change (suf (st_at s 0)) with s.
+  replace (S (S (S (S (length p)))) - 0) with (length s) by lia.
+  assert (Hs2 : suf (mkst [] s 0 []) = s ++ []) by (simpl; rewrite app_nil_r; reflexivity).
+  destruct (fwd_app s (mkst [] s 0 []) [] Hs2) as [G1 _].
+  rewrite finditer_from_S. rewrite G1. simpl length.
+  rewrite search_from_S. unfold run_at. rewrite region_fail_end by auto. rewrite G1. reflexivity.
+Qed.
+
+(* ---- character classes --------------------------------------------------------------------------- *)
+Definition lower (c : N) : Prop := (97 <= c /\ c <= 122)%N.
+Definition upper (c : N) : Prop := (65 <= c /\ c <= 90)%N.
+
+Lemma chr_ok_range : forall lo hi c, chr_ok false [(lo, hi)] c = N.leb lo c && N.leb c hi.
+Proof.
+  intros. unfold chr_ok, in_ranges. simpl. destruct (N.leb lo c && N.leb c hi); reflexivity.
+Qed.
+
+Ltac range_bool :=
+  unfold Lc, Uc, Dc; rewrite chr_ok_range;
+  match goal with
+  | |- _ && _ = true => apply andb_true_iff; split; apply N.leb_le; lia
+  | |- _ && _ = false =>
+      apply andb_false_iff;
+      first [ left; apply N.leb_gt; lia | right; apply N.leb_gt; lia ]
+  end.
+
+Lemma lower_L : forall c, lower c -> Lc c = true. Proof. unfold lower. intros. range_bool. Qed.
+Lemma lower_U : forall c, lower c -> Uc c = false. Proof. unfold lower. intros. range_bool. Qed.
+Lemma lower_D : forall c, lower c -> Dc c = false. Proof. unfold lower. intros. range_bool. Qed.
+Lemma upper_L : forall c, upper c -> Lc c = false. Proof. unfold upper. intros. range_bool. Qed.
+Lemma upper_U : forall c, upper c -> Uc c = true. Proof. unfold upper. intros. range_bool. Qed.
+Lemma upper_D : forall c, upper c -> Dc c = false. Proof. unfold upper. intros. range_bool. Qed.
+Lemma dash_D : Dc 45 = true. Proof. reflexivity. Qed.
+Lemma dash_L : Lc 45 = false. Proof. reflexivity. Qed.
+Lemma dash_U : Uc 45 = false. Proof. reflexivity. Qed.
+
+(* resolve comparisons of a class-constrained character with a constant *)
+Ltac atom :=
+  match goal with
+  | |- context [N.eqb ?x ?y] =>
+      first [ is_var x | is_var y ];
+      let H := fresh in
+      assert (H : N.eqb x y = false) by (apply N.eqb_neq; unfold lower, upper in *; lia);
+      rewrite H; clear H
+  end.
+Ltac norm := repeat (simpl; unfold c_dash, c_plus, c_slash, s_bplus, s_dash_r, of_ascii; simpl;
+                     rewrite ?N.eqb_refl, ?andb_false_r, ?andb_true_r, ?orb_false_r; try atom).
+
+(* ---- the legacy substitutions ---------------------------------------------------------------------- *)
+Definition out_word (a b : N) : str :=
+  if pair_is a b 104 101 then [105; 119]%N
+  else if pair_is a b 105 100 then [105; 110]%N
+  else if pair_is a b 121 105 then [106; 105]%N
+  else [a; b].
+
+Definition in_word (a b : N) : str :=
+  if pair_is a b 105 119 then [104; 101]%N
+  else if pair_is a b 105 110 then [105; 100]%N
+  else if pair_is a b 106 105 then [121; 105]%N
+  else [a; b].
+
+Lemma nullable_legacy_out : forall r, rx_android_legacy_out = Cat (Bol false) r -> nullable r = false.
+Proof. intros r H. inversion H. reflexivity. Qed.
+
+Lemma legacy_out_sub : forall a b rest,
+  rsub rx_android_legacy_out
+       (fun x => map_lookup android_legacy_map (text_or_empty (group_text (a :: b :: rest) 1 x)))
+       (a :: b :: rest) =
+  Ok (if hit3 (104, 101)%N (105, 100)%N (121, 105)%N (a :: b :: rest)
+      then out_word a b ++ rest else a :: b :: rest).
+Proof.
+  intros a b rest. unfold rx_android_legacy_out at 1. rewrite rsub_bol by reflexivity.
+  fold rx_android_legacy_out. rewrite legacy_out_match.
+  destruct (hit3 _ _ _ (a :: b :: rest)) eqn:Eh; [|reflexivity].
+  unfold hit_res, group_text, group. simpl get_cap. cbv iota beta. unfold slice. simpl skipn. simpl firstn.
+  unfold hit3, pair_is in Eh. simpl in Eh. unfold out_word, pair_is, map_lookup, android_legacy_map.
+  simpl. unfold str_eqb. simpl.
+  revert Eh. split_eqb; simpl; intro Eh; try discriminate; reflexivity.
+Qed.
+
+Lemma legacy_in_sub : forall a b rest,
+  rsub rx_android_legacy_in
+       (fun x => map_lookup android_standard_map (text_or_empty (group_text (a :: b :: rest) 1 x)))
+       (a :: b :: rest) =
+  Ok (if hit3 (105, 119)%N (105, 110)%N (106, 105)%N (a :: b :: rest)
+      then in_word a b ++ rest else a :: b :: rest).
+Proof.
+  intros a b rest. unfold rx_android_legacy_in at 1. rewrite rsub_bol by reflexivity.
+  fold rx_android_legacy_in. rewrite legacy_in_match.
+  destruct (hit3 _ _ _ (a :: b :: rest)) eqn:Eh; [|reflexivity].
+  unfold hit_res, group_text, group. simpl get_cap. cbv iota beta. unfold slice. simpl skipn. simpl firstn.
+  unfold hit3, pair_is in Eh. simpl in Eh. unfold in_word, pair_is, map_lookup, android_standard_map.
+  simpl. unfold str_eqb. simpl.
+  revert Eh. split_eqb; simpl; intro Eh; try discriminate; reflexivity.
+Qed.
+
+(* ---- the region substitution on the shapes that occur --------------------------------------------- *)
+Lemma slice_app_right : forall (p l : str) i j,
+  slice (p ++ l) (length p + i) (length p + j) = slice l i j.
+Proof.
+  intros p l i j. unfold slice. replace (length p + j - (length p + i)) with (j - i) by lia.
+  f_equal. rewrite skipn_app. replace (length p + i - length p) with i by lia.
+  rewrite (skipn_all2 p) by lia. reflexivity.
+Qed.
+
+Lemma rsub_region_none : forall repl s, Forall (fun c => Dc c = false) s ->
+  rsub rx_android_region repl s = Ok s.
+Proof. intros repl s H. unfold rsub. rewrite region_finditer_none by auto. reflexivity. Qed.
+
+Lemma rsub_region_one : forall p u1 u2, Forall (fun c => Dc c = false) p ->
+  Uc u1 = true -> Uc u2 = true ->
+  let s := (p ++ [45; 114; u1; u2])%N in
+  rsub rx_android_region (fun x => Ok (c_dash :: text_or_empty (group_text s 1 x))) s =
+  Ok (p ++ [45; u1; u2])%N.
+Proof.
+  intros p u1 u2 HF H1 H2 s. unfold rsub. unfold s at 1. rewrite region_finditer_one by auto.
+  unfold group_text, group. cbn [m_caps get_cap Nat.eqb m_start m_end]. cbv iota beta.
+  assert (Hg : slice s (S (S (length p))) (S (S (S (S (length p))))) = [u1; u2]).
+  { replace (S (S (length p))) with (length p + 2) by lia.
+    replace (S (S (length p + 2))) with (length p + 4) by lia.
+    unfold s. rewrite slice_app_right. reflexivity. }
+  rewrite Hg. cbn [text_or_empty bind].
+  assert (Hp : slice s 0 (length p) = p).
+  { unfold s, slice. rewrite Nat.sub_0_r. simpl skipn. rewrite firstn_app, Nat.sub_diag, firstn_all.
+    simpl. apply app_nil_r. }
+  rewrite Hp.
+  assert (Hr : skipn (S (S (S (S (length p))))) s = []).
+  { apply skipn_all2. unfold s. rewrite app_length. simpl. lia. }
+  rewrite Hr. unfold c_dash. rewrite app_nil_r. reflexivity.
+Qed.
+
+(* ---- the grammar ------------------------------------------------------------------------------------- *)
+Inductive tail_shape : str -> Prop :=
+| T_none : tail_shape []
+| T_script : forall S c r p, upper S -> lower c -> lower r -> lower p ->
+    tail_shape [45; S; c; r; p]%N
+| T_region : forall R G, upper R -> upper G -> tail_shape [45; R; G]%N
+| T_both : forall S c r p R G, upper S -> lower c -> lower r -> lower p -> upper R -> upper G ->
+    tail_shape [45; S; c; r; p; 45; R; G]%N.
+
+Inductive lang_ok : str -> Prop :=
+| L_two : forall a b, lower a -> lower b ->
+    hit3 (105, 119)%N (105, 110)%N (106, 105)%N [a; b] = false -> lang_ok [a; b]
+| L_three : forall a b c, lower a -> lower b -> lower c -> lang_ok [a; b; c].
+
+Definition bcp47_grammar (l : str) : Prop :=
+  exists lang tail, l = lang ++ tail /\ lang_ok lang /\ tail_shape tail.
+
+(* what follows the legacy substitution in to_android *)
+Definition android_tail (bcp47 : str) : result str :=
+  match rmatch rx_android_lang_region bcp47 0 with
+  | MFuel => Raise OutOfFuel
+  | MSome _ =>
+      match split_char c_dash bcp47 with
+      | a :: b :: _ => Ok (a ++ s_dash_r ++ b)
+      | _ => Raise IndexError
+      end
+  | MNone =>
+      if has_char c_dash bcp47 then Ok (s_bplus ++ replace_char c_dash c_plus bcp47)
+      else Ok bcp47
+  end.
+
+Definition android_form (lang tail : str) : str :=
+  match tail with
+  | [] => lang
+  | [_; R; G] => lang ++ [45; 114; R; G]%N
+  | _ => s_bplus ++ lang ++ replace_char c_dash c_plus tail
+  end.
+
+Ltac lr_decide s :=
+  let Hy := fresh "Hy" in let Hn := fresh "Hn" in
+  destruct (lang_region_match s) as [Hy Hn];
+  unfold lr_hit, lr_tail in Hy, Hn.
+
+Ltac class_rewrite :=
+  repeat match goal with
+  | H : lower ?c |- _ =>
+      rewrite ?(lower_L c H), ?(lower_U c H), ?(lower_D c H) in *
+  | H : upper ?c |- _ =>
+      rewrite ?(upper_L c H), ?(upper_U c H), ?(upper_D c H) in *
+  end; rewrite ?dash_D, ?dash_L, ?dash_U in *.
+
+Ltac class_rw_in H :=
+  repeat match goal with
+  | Hc : lower ?c |- _ =>
+      progress (rewrite ?(lower_L c Hc), ?(lower_U c Hc), ?(lower_D c Hc) in H)
+  | Hc : upper ?c |- _ =>
+      progress (rewrite ?(upper_L c Hc), ?(upper_U c Hc), ?(upper_D c Hc) in H)
+  end; rewrite ?dash_D, ?dash_L, ?dash_U in H.
+
+Ltac lr_step s :=
+  let Hy := fresh "Hy" in let Hn := fresh "Hn" in
+  destruct (lang_region_match s) as [Hy Hn];
+  unfold lr_hit, lr_tail in Hy, Hn;
+  class_rw_in Hy; class_rw_in Hn; simpl in Hy, Hn;
+  first [ rewrite (Hn eq_refl) | (let x := fresh "x" in let Hx := fresh "Hx" in
+                                  destruct (Hy eq_refl) as [x Hx]; rewrite Hx) ].
+
+Lemma android_tail_2 : forall a b tail, lower a -> lower b -> tail_shape tail ->
+  android_tail ([a; b] ++ tail) = Ok (android_form [a; b] tail).
+Proof.
+  intros a b tail Ha Hb Ht. inversion Ht; subst; unfold android_tail; simpl app.
+  - lr_step [a; b]. unfold has_char, c_dash. norm. reflexivity.
+  - lr_step [a; b; 45; S; c; r; p]%N. unfold has_char, replace_char, c_dash, c_plus, android_form.
+    norm. reflexivity.
+  - lr_step [a; b; 45; R; G]%N. unfold split_char, c_dash, s_dash_r, android_form. norm. reflexivity.
+  - lr_step [a; b; 45; S; c; r; p; 45; R; G]%N.
+    unfold has_char, replace_char, c_dash, c_plus, android_form. norm. reflexivity.
+Qed.
+
+Lemma android_tail_3 : forall a b c0 tail, lower a -> lower b -> lower c0 -> tail_shape tail ->
+  android_tail ([a; b; c0] ++ tail) = Ok (android_form [a; b; c0] tail).
+Proof.
+  intros a b c0 tail Ha Hb Hc Ht. inversion Ht; subst; unfold android_tail; simpl app.
+  - lr_step [a; b; c0]. unfold has_char, c_dash. norm. reflexivity.
+  - lr_step [a; b; c0; 45; S; c; r; p]%N. unfold has_char, replace_char, c_dash, c_plus, android_form.
+    norm. reflexivity.
+  - lr_step [a; b; c0; 45; R; G]%N. unfold split_char, c_dash, s_dash_r, android_form. norm. reflexivity.
+  - lr_step [a; b; c0; 45; S; c; r; p; 45; R; G]%N.
+    unfold has_char, replace_char, c_dash, c_plus, android_form. norm. reflexivity.
+Qed.
+
+(* ---- and back ------------------------------------------------------------------------------------------ *)
+Definition back (a b : N) (ltail tail : str) : str :=
+  if hit3 (105, 119)%N (105, 110)%N (106, 105)%N (a :: b :: ltail ++ tail)
+  then in_word a b ++ ltail ++ tail else a :: b :: ltail ++ tail.
+
+Ltac region_none :=
+  rewrite rsub_region_none by (repeat constructor; apply lower_D; assumption).
+
+Ltac finish_back rest :=
+  match goal with Er : ?rhs = back ?a ?b _ _ |- _ =>
+    subst rhs; unfold back; simpl app; apply (legacy_in_sub a b rest) end.
+
+Lemma bcp47_form_2 : forall a b tail, lower a -> lower b -> tail_shape tail ->
+  to_bcp47 (android_form [a; b] tail) = Ok (back a b [] tail).
+Proof.
+  intros a b tail Ha Hb Ht.
+  inversion Ht; subst; remember (back a b [] _) as rhs eqn:Er;
+    unfold to_bcp47, android_form; simpl app.
+  - unfold starts_with, s_bplus. norm. region_none. simpl bind. finish_back (@nil N).
+  - unfold starts_with, s_bplus, replace_char. norm. finish_back [45; S; c; r; p]%N.
+  - unfold starts_with, s_bplus. norm.
+    pose proof (rsub_region_one [a; b] R G) as Hr. simpl in Hr. unfold c_dash in Hr. rewrite Hr;
+      [|repeat constructor; apply lower_D; assumption|apply upper_U; assumption|apply upper_U; assumption].
+    simpl bind. finish_back [45; R; G]%N.
+  - unfold starts_with, s_bplus, replace_char. norm. finish_back [45; S; c; r; p; 45; R; G]%N.
+Qed.
+
+Lemma bcp47_form_3 : forall a b c0 tail, lower a -> lower b -> lower c0 -> tail_shape tail ->
+  to_bcp47 (android_form [a; b; c0] tail) = Ok (back a b [c0] tail).
+Proof.
+  intros a b c0 tail Ha Hb Hc Ht.
+  inversion Ht; subst; remember (back a b [c0] _) as rhs eqn:Er;
+    unfold to_bcp47, android_form; simpl app.
+  - unfold starts_with, s_bplus. norm. region_none. simpl bind. finish_back [c0].
+  - unfold starts_with, s_bplus, replace_char. norm. finish_back [c0; 45; S; c; r; p]%N.
+  - unfold starts_with, s_bplus. norm.
+    pose proof (rsub_region_one [a; b; c0] R G) as Hr. simpl in Hr. unfold c_dash in Hr. rewrite Hr;
+      [|repeat constructor; apply lower_D; assumption|apply upper_U; assumption|apply upper_U; assumption].
+    simpl bind. finish_back [c0; 45; R; G]%N.
+  - unfold starts_with, s_bplus, replace_char. norm. finish_back [c0; 45; S; c; r; p; 45; R; G]%N.
+Qed.
+
+(* ---- the round trip ---------------------------------------------------------------------------------------- *)
+Lemma to_android_unfold : forall l,
+  to_android l =
+  do b <- rsub rx_android_legacy_out
+            (fun x => map_lookup android_legacy_map (text_or_empty (group_text l 1 x))) l;
+  android_tail b.
+Proof. reflexivity. Qed.
+
+Lemma tail_boundary : forall tail, tail_shape tail -> boundary tail = true.
+Proof. intros tail H. inversion H; reflexivity. Qed.
+
+Ltac spec_eqb :=
+  repeat match goal with
+  | |- context [N.eqb ?x ?y] => destruct (N.eqb_spec x y); subst
+  | H : context [N.eqb ?x ?y] |- _ => destruct (N.eqb_spec x y); subst
+  end.
+
+Lemma out_word_lower : forall a b, lower a -> lower b ->
+  exists a' b', out_word a b = [a'; b'] /\ lower a' /\ lower b'.
+Proof.
+  intros a b Ha Hb. unfold out_word, pair_is.
+  destruct (N.eqb a 104 && N.eqb b 101); [exists 105%N, 119%N; unfold lower; repeat split; lia|].
+  destruct (N.eqb a 105 && N.eqb b 100); [exists 105%N, 110%N; unfold lower; repeat split; lia|].
+  destruct (N.eqb a 121 && N.eqb b 105); [exists 106%N, 105%N; unfold lower; repeat split; lia|].
+  exists a, b. auto.
+Qed.
+
+(* mapping a language out and in again: the identity unless it is iw / in / ji *)
+Lemma in_out_word : forall a b a' b',
+  hit3 (105, 119)%N (105, 110)%N (106, 105)%N [a; b] = false ->
+  out_word a b = [a'; b'] ->
+  (if hit3 (105, 119)%N (105, 110)%N (106, 105)%N [a'; b'] then in_word a' b' else [a'; b']) = [a; b].
+Proof.
+  intros a b a' b' Hno Ho. unfold out_word in Ho.
+  assert (Hp : forall x y, pair_is a b x y = true -> a = x /\ b = y).
+  { intros x y H. unfold pair_is in H. apply andb_true_iff in H. destruct H as [H1 H2].
+    apply N.eqb_eq in H1. apply N.eqb_eq in H2. auto. }
+  destruct (pair_is a b 104 101) eqn:E1.
+  { destruct (Hp _ _ E1); subst. inversion Ho; subst. reflexivity. }
+  destruct (pair_is a b 105 100) eqn:E2.
+  { destruct (Hp _ _ E2); subst. inversion Ho; subst. reflexivity. }
+  destruct (pair_is a b 121 105) eqn:E3.
+  { destruct (Hp _ _ E3); subst. inversion Ho; subst. reflexivity. }
+  inversion Ho; subst a' b'. rewrite Hno. reflexivity.
+Qed.
+
+Theorem android_roundtrip : forall l, bcp47_grammar l ->
+  (do a <- to_android l; to_bcp47 a) = Ok l.
+Proof.
+  intros l [lang [tail [Hl [Hlang Htail]]]]. subst l.
+  pose proof (tail_boundary tail Htail) as Hbd.
+  inversion Hlang as [a b Ha Hb Hno|a b c0 Ha Hb Hc]; subst lang.
+  - (* two-letter language *)
+    simpl app. rewrite to_android_unfold, legacy_out_sub.
+    assert (Hout : (if hit3 (104, 101)%N (105, 100)%N (121, 105)%N (a :: b :: tail)
+                    then out_word a b ++ tail else a :: b :: tail) = out_word a b ++ tail).
+    { unfold hit3. rewrite Hbd, andb_true_r. unfold out_word. cbn [fst snd].
+      destruct (pair_is a b 104 101); [reflexivity|].
+      destruct (pair_is a b 105 100); [reflexivity|].
+      destruct (pair_is a b 121 105); reflexivity. }
+    rewrite Hout. simpl bind.
+    destruct (out_word_lower a b Ha Hb) as [a' [b' [Ho [Ha' Hb']]]]. rewrite Ho.
+    rewrite (android_tail_2 a' b' tail Ha' Hb' Htail). simpl bind.
+    rewrite (bcp47_form_2 a' b' tail Ha' Hb' Htail). f_equal. unfold back. simpl app.
+    pose proof (in_out_word a b a' b' Hno Ho) as Hio.
+    unfold hit3 in *. rewrite Hbd, andb_true_r. simpl boundary in Hio. rewrite andb_true_r in Hio.
+    cbn [fst snd] in *.
+    destruct (pair_is a' b' 105 119 || pair_is a' b' 105 110 || pair_is a' b' 106 105).
+    + rewrite Hio. reflexivity.
+    + inversion Hio; subst. reflexivity.
+  - (* three-letter language: the legacy regexes need a boundary after two letters *)
+    simpl app. rewrite to_android_unfold, legacy_out_sub.
+    assert (Hc45 : N.eqb c0 45 = false) by (apply N.eqb_neq; unfold lower in Hc; lia).
+    assert (Hout : hit3 (104, 101)%N (105, 100)%N (121, 105)%N (a :: b :: c0 :: tail) = false).
+    { unfold hit3, boundary. rewrite Hc45. apply andb_false_r. }
+    rewrite Hout. simpl bind.
+    change (a :: b :: c0 :: tail) with ([a; b; c0] ++ tail).
+    rewrite (android_tail_3 a b c0 tail Ha Hb Hc Htail). simpl bind.
+    rewrite (bcp47_form_3 a b c0 tail Ha Hb Hc Htail). f_equal. unfold back. simpl app.
+    assert (Hin : hit3 (105, 119)%N (105, 110)%N (106, 105)%N (a :: b :: c0 :: tail) = false).
+    { unfold hit3, boundary. rewrite Hc45. apply andb_false_r. }
+    rewrite Hin. reflexivity.
+Qed.
